@@ -260,7 +260,51 @@ def x4_dense_list(chk, fs, S):
     chk.ob('X4', 'scan-ends-at-first-null-slot', bool(arrp) and stops, S.where(), S.name,
            '%s no longer walks a NULL-terminated array of names (the density rule below is tied to that shape)' % S.name,
            nontrivial=False, how='loop condition tests the current slot against NULL')
+    # which value ends the scan: a NULL slot, or a slot holding the empty string?
+    empty_string_sentinel = False
+    for b in S.blocks.values():
+        c = strip(b.cond) if b.cond is not None else None
+        if c is None:
+            continue
+        for n in c.walk():
+            t = (n.get('ct') or '').replace('const ', '').strip()
+            if ((n.k == 'UnaryOperator' and n.get('op') == '*') or n.k == 'ArraySubscriptExpr') and t == 'char':
+                inner = strip(n.ch[0])
+                if inner is not None and ((inner.k == 'UnaryOperator' and inner.get('op') == '*') or inner.k == 'ArraySubscriptExpr'):
+                    empty_string_sentinel = True      # **p  /  (*p)[0]  /  p[i][0]
+            if n.k == 'CallExpr' and n.get('callee') in ('strcmp', 'strlen') and \
+                    any(strip(a).k == 'StringLiteral' and strip(a).get('s') == '' for a in n.ch[1:]) and \
+                    any(x.k in ('UnaryOperator', 'ArraySubscriptExpr') for a in n.ch[1:] if a is not None for x in a.walk()):
+                empty_string_sentinel = True
     T = None
+    out_param = None
+    if empty_string_sentinel:
+        # an empty string ends the list: then no ITEM may be empty.  Items cut out with strtok/strtok_r never are;
+        # items taken as "the text behind each separator" are empty for ",," and for a leading or trailing ",".
+        prod = None
+        for g in fs:
+            for c in g.calls():
+                tname = c.get('callee')
+                for a in c.ch[1:]:
+                    sa = strip(a) if a is not None else None
+                    if sa is not None and sa.k == 'UnaryOperator' and sa.get('op') == '&' and \
+                            (sa.get('ct') or '').replace(' ', '').startswith('char***'):
+                        prod = tname
+        P2 = None
+        for g in fs:
+            if g.name == prod:
+                P2 = g
+        uses_strtok = P2 is not None and any(c.get('callee') in ('strtok', 'strtok_r') for c in P2.calls())
+        chk.ob('X4', 'list-terminator-is-not-a-possible-item', uses_strtok, S.where(), S.name,
+               'the scan of the name list stops at the first EMPTY STRING, and the list is produced by %s, which returns '
+               'empty items (",,", leading or trailing ",") as empty strings: every name behind an empty item is ignored' % (
+                   prod or 'a splitter that does not skip empty items'),
+               how='items come from strtok/strtok_r, which never yields an empty item')
+        chk.ob('X4', 'no-hole-in-name-list', True, S.where(), S.name, nontrivial=False,
+               how='not applicable: the list is not NULL-terminated')
+        chk.ob('X4', 'name-list-terminated', True, S.where(), S.name, nontrivial=False,
+               how='terminated by an empty-string entry of the shared parser')
+        return
     for g in fs:
         if g.d.get('retType', g.d.get('ret', '')).replace(' ', '').startswith('char**') and g is not S:
             T = g
